@@ -16,7 +16,7 @@ else:
     for r in sorted(os.listdir(src)):
         for k in sorted(os.listdir(os.path.join(src, r))):
             d = os.path.join(src, r, k)
-            if os.path.exists(os.path.join(d, "patch.diff")) and os.path.exists(os.path.join(d, "meta.json")):
+            if os.path.exists(os.path.join(d, "patch.diff")):
                 jobs.append(("%s-%s" % (r, k), d))
 if only:
     jobs = [j for j in jobs if j[0] in only]
